@@ -32,6 +32,8 @@ type LoopContract struct {
 	Decreases  *Clause
 	Modifies   []*Clause // extra havoc targets
 	Steps      []*Clause // per-iteration postconditions; iter(e) is e at the start of the iteration
+	Acquires   string    // "m R": the loop locks every element of m in mode R
+	Releases   string    // "m": the loop unlocks every element of m
 }
 
 type ParamDecl struct {
@@ -101,27 +103,29 @@ type Axiom struct {
 }
 
 type World struct {
-	Fset       *token.FileSet
-	Pkgs       map[string]*packages.Package // by path
-	AllPkgs    map[string]*packages.Package // including deps
-	Reg        *Registry
-	Contracts  map[string]*Contract
-	Macros     map[string]*Macro
-	Uninterps  map[string]*Uninterp
-	Lemmas     []*Lemma
-	Axioms     []*Axiom
-	GlobalInvs []*GlobalInv
-	FuncDecls  map[string]*ast.FuncDecl
-	FuncPkg    map[string]*packages.Package
-	FuncObj    map[string]*types.Func
-	NoOps      map[string]bool // functions treated as no-ops (logging)
-	NoReturn   map[string]bool // functions that terminate the process (log.Fatal)
-	Problems   []string
-	RepoDir    string
-	GhostPkg   *types.Package
-	ChanInvs   map[string]*ObjInv // by global variable full name (pkgpath.name)
-	PoolInvs   map[string]*ObjInv
-	Intrinsics map[string][]string
+	Fset         *token.FileSet
+	Pkgs         map[string]*packages.Package // by path
+	AllPkgs      map[string]*packages.Package // including deps
+	Reg          *Registry
+	Contracts    map[string]*Contract
+	Macros       map[string]*Macro
+	Uninterps    map[string]*Uninterp
+	Lemmas       []*Lemma
+	Axioms       []*Axiom
+	GlobalInvs   []*GlobalInv
+	FuncDecls    map[string]*ast.FuncDecl
+	FuncPkg      map[string]*packages.Package
+	FuncObj      map[string]*types.Func
+	NoOps        map[string]bool // functions treated as no-ops (logging)
+	NoReturn     map[string]bool // functions that terminate the process (log.Fatal)
+	Problems     []string
+	RepoDir      string
+	GhostPkg     *types.Package
+	Guarded      map[string]bool    // pkgname.Struct.Field protected by the struct's embedded RWMutex
+	ReflectReads map[string]bool    // functions that read everything reachable from their arguments
+	ChanInvs     map[string]*ObjInv // by global variable full name (pkgpath.name)
+	PoolInvs     map[string]*ObjInv
+	Intrinsics   map[string][]string
 }
 
 func loadWorld(repo string, verifDir string) (*World, error) {
@@ -130,6 +134,8 @@ func loadWorld(repo string, verifDir string) (*World, error) {
 	fset := token.NewFileSet()
 	w.Fset = fset
 	w.Intrinsics = map[string][]string{}
+	w.Guarded = map[string]bool{}
+	w.ReflectReads = map[string]bool{}
 	w.ChanInvs = map[string]*ObjInv{}
 	w.PoolInvs = map[string]*ObjInv{}
 	// ghost package: types that exist only in specifications
@@ -277,8 +283,8 @@ type rawDirective struct {
 	sub  []rawDirective
 }
 
-var topKeywords = map[string]bool{"ghost": true, "pred": true, "spec": true, "uninterp": true, "axiom": true, "lemma": true, "func": true, "noop": true, "ifaceas": true, "extern": true, "globalinv": true, "intrinsic": true, "typeas": true, "chaninv": true, "poolinv": true, "noreturn": true}
-var subKeywords = map[string]bool{"requires": true, "ensures": true, "modifies": true, "loop": true, "invariant": true, "decreases": true, "trusted": true, "pure": true, "ghostout": true, "opt": true, "params": true, "results": true, "havoc": true, "step": true, "exitassert": true, "slot": true}
+var topKeywords = map[string]bool{"ghost": true, "pred": true, "spec": true, "uninterp": true, "axiom": true, "lemma": true, "func": true, "noop": true, "ifaceas": true, "extern": true, "globalinv": true, "intrinsic": true, "typeas": true, "chaninv": true, "poolinv": true, "noreturn": true, "guarded": true, "reflectreads": true}
+var subKeywords = map[string]bool{"requires": true, "ensures": true, "modifies": true, "loop": true, "invariant": true, "decreases": true, "trusted": true, "pure": true, "ghostout": true, "opt": true, "params": true, "results": true, "havoc": true, "step": true, "exitassert": true, "slot": true, "acquires": true, "releases": true}
 
 func readDirectives(path string) ([]rawDirective, error) {
 	f, err := os.Open(path)
@@ -633,6 +639,17 @@ func (w *World) addDirectives(ds []rawDirective, pkg *packages.Package) error {
 			for _, f := range strings.Fields(d.text) {
 				w.NoOps[f] = true
 			}
+		case "guarded":
+			for _, f := range strings.Fields(d.text) {
+				if pkg != nil && strings.Count(f, ".") == 1 {
+					f = pkg.Name + "." + f
+				}
+				w.Guarded[f] = true
+			}
+		case "reflectreads":
+			for _, f := range strings.Fields(d.text) {
+				w.ReflectReads[f] = true
+			}
 		case "noreturn":
 			for _, f := range strings.Fields(d.text) {
 				w.NoReturn[f] = true
@@ -775,6 +792,15 @@ func (w *World) addDirectives(ds []rawDirective, pkg *packages.Package) error {
 						return e
 					}
 					curLoop.Invariants = append(curLoop.Invariants, cl)
+				case "acquires", "releases":
+					if curLoop == nil {
+						return fmt.Errorf("%s: %s outside loop", s.src, s.kw)
+					}
+					if s.kw == "acquires" {
+						curLoop.Acquires = strings.TrimSpace(s.text)
+					} else {
+						curLoop.Releases = strings.TrimSpace(s.text)
+					}
 				case "step":
 					if curLoop == nil {
 						return fmt.Errorf("%s: step outside loop", s.src)
